@@ -7,7 +7,7 @@ NEEDS_CLI = True
 THOROUGH_ROUNDS = 2
 RULE = ("real binary `hex encode`/`hex decode` (stdin, file argument, default argument) vs model: all 256 byte values, "
         "lengths 0..4096 (thorough: every length; quick: 0..64 + sampled + boundaries), round trip of every encode output "
-        "through decode, whitespace/case/prefix layouts, malformed (odd, non-hex, non-UTF-8, doubled prefix); "
+        "through decode, whitespace/case/prefix layouts, data and text with special byte sequences (BOMs, line endings, NUL, Ctrl-Z, escape/prefix/magic bytes: vlib/magic.py) at the start, end and inside,  malformed (odd, non-hex, non-UTF-8, doubled prefix); "
         "non-trivial = distinct input")
 EXHAUSTIVE_SWEEPS = {"quick": ["all 256 single bytes (encode and decode)", "lengths 0..64"],
                      "thorough": ["all 256 single bytes (encode and decode)", "every length 0..4096"]}
@@ -50,6 +50,17 @@ def gen(rng, tier):
     for _ in range(nlay):
         d = rb(rng.choice([0, 1, 2, 3, 5, 8, 20, 32, 33, 100]))
         cases.append(Case("cli.hex_decode " + hx(layout(rng, d)), tags=("dec", "layout"), runner="cli"))
+    # data that begins / ends with / contains byte sequences some layer might treat specially (BOMs, line endings, NUL,
+    # Ctrl-Z, prefixes, container magic): `hex encode` takes arbitrary bytes and `hex decode` only hex digits, white space, one 0x
+    from vlib import magic
+    for body in (rb(6), b"\x01\x02\x03", b"hello"):
+        for d, tag in magic.variants(rng, body):
+            meta = {"via_file": rng.random() < 0.5}
+            cases.append(Case("cli.hex_encode " + hx(d), tags=("enc", tag), runner="cli", meta=meta))
+    for body in (b"0x010203", b"010203\n", b"0xABcd"):
+        for d, tag in magic.variants(rng, body):
+            meta = {"via_file": rng.random() < 0.5}
+            cases.append(Case("cli.hex_decode " + hx(d), tags=("dec", tag), runner="cli", meta=meta))
     # malformed
     bad = [b"0", b"0x0", b"abc", b"0xg0", b"zz", b"0x0x00", b"0X00", b"x00", b"00 0", b"\xff\xfe", b"\xc3", b"0x\xc3\xa9", b"--", b"0x-1",
            b"00\x00", b"0 x00", b"\xe3\x80\x800x00", "0x00é".encode(), "００".encode(), b"0x", b"", b" ", b"\n0x\n"]
